@@ -58,7 +58,7 @@ def soundness(p):
            ("bbox", lambda: p.bbox()),
            ("length", lambda: p.length(error=1e-4)), ("abs_mul", lambda: abs(p * svg.Matrix("rotate(30) scale(2,3)"))),
            ("mul_str", lambda: (p * "translate(1,2)").d()), ("reparse", lambda: svg.Path(p.d())),
-           ("point", lambda: p.point(0.5) if len(p) else None), ("reverse", lambda: svg.Path(p).reverse() if False else None)]
+           ("point", lambda: p.point(0.5, error=1e-4) if len(p) else None), ("reverse", lambda: svg.Path(p).reverse() if False else None)]
     for nm, op in ops:
         try:
             op()
